@@ -139,7 +139,7 @@ func fold(s *Scen) (e Expected) {
 			// a patch that decoded to nil (JSON null) is an empty patch: Apply leaves the document as decoded/re-encoded
 			p = emptyPatch(api)
 		}
-		doc, err = api.Apply(p, sim.FnApply, doc, sim.Opts{}, "")
+		doc, err = api.Apply(p, sim.FnApply, doc, sim.Opts{}, nil, "")
 		if err != nil {
 			return Expected{Why: fmt.Sprintf("patch %d does not apply: %v", i, err)}
 		}
